@@ -116,6 +116,25 @@ Theorem two_runs_eq_one_run_on_concatenation :
 Proof. exact runs_concat_thm. Qed.
 Print Assumptions two_runs_eq_one_run_on_concatenation.
 
+(* a run() that raises while its batch number k is prepared (failing preprocess / selection function / model) leaves the
+   object with exactly the first k batches = the first k * bs traces of that container accumulated and counted ([bs] the
+   derived batch size); the following run() calls go on from there (run_eq_oneshot holds from ANY state), so a history
+   A, B interrupted, C ends with the one-shot statistic on A ++ B[: k bs] ++ C.  (C16 run_keeps_accepted_prefix_only is the
+   same fact for update().) *)
+Theorem interrupted_run_keeps_processed_prefix :
+  forall (X M V D St O Sc : Type) (zero : St) (plus : St -> St -> St) (contrib : X * D -> St) (comp : St -> O),
+  (forall a b c : St, plus a (plus b c) = plus (plus a b) c) ->
+  (forall a : St, plus a zero = a) ->
+  (forall a : St, plus zero a = a) ->
+  forall (sf : M -> V) (model : V -> D) (disc : O -> Sc) (cs : option nat) (st : ast St O Sc) (c : container X M) (k : nat),
+  match cs with Some s => 1 <= s | None => True end ->
+  1 <= c_bs c -> k <= length (c_rows c) / eff_bs cs (c_bs c) ->
+  let st' := run_interrupted X M V D St O Sc zero plus contrib comp sf model disc cs st c k in
+  acc st' = upd St (X * D) zero plus contrib (acc st) (firstn (k * eff_bs cs (c_bs c)) (rows_of X M V D sf model c))
+  /\ processed st' = processed st + k * eff_bs cs (c_bs c).
+Proof. exact run_interrupted_thm. Qed.
+Print Assumptions interrupted_run_keeps_processed_prefix.
+
 (* scores_are_discriminant: after any sequence of run() calls (no hypothesis at all) scores = discriminant(results) *)
 Theorem scores_are_discriminant :
   forall (X M V D St O Sc : Type) (zero : St) (plus : St -> St -> St) (contrib : X * D -> St) (comp : St -> O)
@@ -217,7 +236,8 @@ Example c02_check_discriminates :
   let mk upd res := {|
     c2_guesses := None; c2_model := MValue; c2_prec := F64; c2_step := None;
     c2_runs := [{| r2_rows := [([1; 2; 3], [5]); ([4; 5; 6], [6]); ([7; 8; 9], [7])]%Z; r2_frame := FSlice 1 3 1;
-                   r2_chain := [PCumsum]; r2_setting := BInt 2; r2_itemsize := 1; r2_obs_bs := Some 2%Z |}];
+                   r2_chain := [PCumsum]; r2_setting := BInt 2; r2_itemsize := 1; r2_obs_bs := Some 2%Z;
+                   r2_fail := None; r2_obs_fed := 3 |}];
     c2_obs_updates := upd; c2_obs_processed := length (concat upd); c2_res_shape := [1; 1]; c2_obs_results := [res];
     c2_disc := DMaxabs; c2_obs_scores := None; c2_one_results := [Fin 1 0]; c2_one_scores := None |} in
   let good := mk [[([2; 5], [5]); ([5; 11], [6])]; [([8; 17], [7])]]%Z (Fin 1 0) in
